@@ -31,7 +31,7 @@ import (
 )
 
 var st = stat.New("C08",
-	"Case = {1..3 proxy objects to one scripted server - either for distinct servant names (separate connections) or all for the same name (as repeated StringToProxy calls: one shared adapter and connection), 1..48 calls issued by 1..48 worker goroutines (a worker issues its calls sequentially, workers run concurrently) each call with a unique payload token and a context deadline of 250 or 400 ms (a fifth of the calls: a context without deadline that is cancelled after that time), the process-wide request id counter preset (random, near MaxInt32, near 0 from below), in a third of the cases keep-alive pings (one-way tars_ping, ids from the same sequence) sent on the same connections every 2..25 ms while the calls run, per caller a reply plan: 0..3 acts from {own reply, duplicate, reply with the id of another caller, id 0, unknown id, own id marked one-way} with delays 0..40 ms or late (after the deadline), or silence}. Oracle (history invariant over the server log): a caller returns either an error or a response whose serial was sent with id field == the id of its own request and packet type normal; request ids on the wire are never 0 and pairwise distinct within the batch; a caller for whom a correctly addressed reply was written on its connection at least 150 ms before its deadline must succeed. Non-trivial = >=4 calls in flight and >=1 duplicate or foreign-id reply and replies not in request order. Distinct = distinct case JSON.",
+	"Case = {1..3 proxy objects to one scripted server - either for distinct servant names (separate connections) or all for the same name (as repeated StringToProxy calls: one shared adapter and connection), 1..48 calls issued by 1..48 worker goroutines (a worker issues its calls sequentially, workers run concurrently) each call (a sixth of them one-way: ids from the same sequence, nothing awaited, the reply plan still played against the id) with a unique payload token and a context deadline of 250 or 400 ms (a fifth of the calls: a context without deadline that is cancelled after that time), the process-wide request id counter preset (random, near MaxInt32, near 0 from below), in a third of the cases keep-alive pings (one-way tars_ping, ids from the same sequence) sent on the same connections every 2..25 ms while the calls run, per caller a reply plan: 0..3 acts from {own reply, duplicate, reply with the id of another caller, id 0, unknown id, own id marked one-way} with delays 0..40 ms or late (after the deadline), or silence}. Oracle (history invariant over the server log): a caller returns either an error or a response whose serial was sent with id field == the id of its own request and packet type normal; request ids on the wire are never 0 and pairwise distinct within the batch; a caller for whom a correctly addressed reply was written on its connection at least 150 ms before its deadline must succeed. Non-trivial = >=4 calls in flight and >=1 duplicate or foreign-id reply and replies not in request order. Distinct = distinct case JSON.",
 	"the scripted server's log is the ground truth; replies may legitimately carry foreign payloads, so payloads are never compared",
 	"schedules are sampled through generated delays, not enumerated; id uniqueness across a full 2^31 wrap is out of reach")
 
@@ -52,6 +52,9 @@ type Caller struct {
 	Acts      []Act `json:"acts"`
 	// Cancel: the caller's context has no deadline; it is cancelled after TimeoutMs instead
 	Cancel bool `json:"cancel,omitempty"`
+	// OneWay: the request is issued as a one-way call (no reply awaited); its id comes from
+	// the same sequence and the peer's reply plan is still played against that id
+	OneWay bool `json:"oneway,omitempty"`
 }
 
 type Case struct {
@@ -88,6 +91,7 @@ func draw(rt *rapid.T) Case {
 		}
 		cl := Caller{Worker: w, Proxy: workerProxy[w], TimeoutMs: rapid.SampledFrom([]int{250, 400}).Draw(rt, "timeout")}
 		cl.Cancel = rapid.IntRange(0, 4).Draw(rt, "cancel") == 0
+		cl.OneWay = rapid.IntRange(0, 5).Draw(rt, "oneway") == 0
 		na := rapid.SampledFrom([]int{0, 1, 1, 1, 1, 2, 2, 2, 3}).Draw(rt, "nacts")
 		for a := 0; a < na; a++ {
 			act := Act{Kind: rapid.SampledFrom([]string{"own", "own", "own", "dup", "dup", "foreign", "foreign", "zero", "unknown", "oneway-own"}).Draw(rt, "kind")}
@@ -219,7 +223,11 @@ func run(c Case) *stat.Failure {
 				}
 				resp := &requestf.ResponsePacket{}
 				r := result{start: time.Now()}
-				r.err = proxies[cl.Proxy].TarsInvoke(ctx, 0, "echo", buf, nil, nil, resp)
+				var cType byte
+				if cl.OneWay {
+					cType = 1 // basef.TARSONEWAY
+				}
+				r.err = proxies[cl.Proxy].TarsInvoke(ctx, cType, "echo", buf, nil, nil, resp)
 				r.end = time.Now()
 				cancel()
 				if r.err == nil {
@@ -282,6 +290,9 @@ func run(c Case) *stat.Failure {
 	}
 	for i, r := range results {
 		id, arrived := idOf[i]
+		if c.Callers[i].OneWay {
+			continue // nothing is delivered to a one-way caller; its id is checked above
+		}
 		if r.err == nil {
 			if !r.has {
 				return stat.Failf("misdelivered", "caller %d succeeded with a response that carries no serial", i)
@@ -359,6 +370,12 @@ func TestC08(t *testing.T) {
 		}
 		if c.KeepAliveMs > 0 {
 			cls = append(cls, "keep-alive-pings")
+		}
+		for _, cl := range c.Callers {
+			if cl.OneWay {
+				cls = append(cls, "has-oneway-call")
+				break
+			}
 		}
 		st.CaseJSON(c, nontrivial(c), cls...)
 		st.Class("calls", int64(len(c.Callers)))
